@@ -372,6 +372,15 @@ class Verdict:
         print("KNOWN-FINDING: property=%s %s" % (self.pid, what), flush=True)
 
     def finish(self, level="proof"):
+        # a proof obligation / translator / build that no longer checks is a violation even when the suites of this run found no
+        # failing input: the property is then no longer shown to hold (brief: "names the theorem or correspondence that no longer
+        # checks in the replay file and ends the VIOLATION line with the words no-failing-input-found")
+        failed_obl = [n for (n, ok, d) in self.obligations if not ok]
+        if failed_obl and self.violations == 0:
+            self.violation("obligations no longer check: %s; the suites of this run found no input on which the implementation "
+                           "violates the property" % ", ".join(failed_obl[:12]),
+                           {"failed_obligations": failed_obl,
+                            "details": {n: d[-600:] for (n, ok, d) in self.obligations if not ok}}, no_input=True)
         cov = dict(self.coverage)
         cov.setdefault("obligations", len(self.obligations))
         cov.setdefault("discharged", sum(1 for o in self.obligations if o[1]))
